@@ -14,7 +14,7 @@ from vfw.core import Violation, must_return
 from vfw.model import stencil as M
 
 PROPERTY = "C11"
-SIZES = {"quick": 2400, "thorough": 80000}
+SIZES = {"quick": 4000, "thorough": 80000}
 RULE = (
     "Hypothesis draws a grid (1-3 axes, any position sets, 3-5 cells), a signature with 1-3 inputs, 0-2 outputs and 1-2 dummy "
     "axes per input (dummy names incl. hostile ones), an injective binding of dummy to real axes, input arrays on the named "
@@ -111,6 +111,7 @@ def strategy_impl(draw, tier):
                       partial(st.sampled_from([1.0, -2.0, 7.5, 0.0])))
     return {
         "axes": axes, "sig_in": sig_in, "sig_out": sig_out, "n_out": n_out, "bind": bind, "extra": extra, "inputs": inputs,
+        "tuple_builtin": draw(st.booleans()),   # several outputs hinted as typing.Tuple[...] or as the builtin generic tuple[...]
         "bw": bw, "bw_where": draw(st.sampled_from(["def", "call", "both"])), "pad_before": pad_before,
         # widths bound at definition time when the real ones are given at call time as well ("both"): they must be overridden
         "bw_decoy": {d: [draw(st.integers(0, 2)), draw(st.integers(0, 2))] for d in (bw or {})},
@@ -232,7 +233,7 @@ def check(case, ctx):
             ann = {p: typing.Annotated[np.ndarray, ",".join(f"{d}:{q}" for d, q in arg)] for p, arg in zip(params, case["sig_in"])}
             if case["n_out"]:
                 rets = [typing.Annotated[np.ndarray, ",".join(f"{d}:{q}" for d, q in arg)] for arg in case["sig_out"]]
-                ann["return"] = rets[0] if len(rets) == 1 else typing.Tuple[tuple(rets)]
+                ann["return"] = rets[0] if len(rets) == 1 else (tuple[tuple(rets)] if case.get("tuple_builtin") else typing.Tuple[tuple(rets)])
             fn.__annotations__ = ann
             sig_kw = {}
         else:
